@@ -5,4 +5,5 @@ let table : (string * (Model.n list -> Model.n list)) list = [
   ("memstorage", Model.run_memstorage);
   ("confchange", Model.run_confchange);
   ("node", Model.run_node);
+  ("pelection", Model.run_pelection);
 ]
